@@ -134,9 +134,26 @@ def probe_one_proxy_across_inspect():
 
         def send(self, data):
             pass
+    # an instance key and a class key (`id_pack[2] == 0`: `_netref_class` also consults and fills its class cache)
+    return all(_one_proxy_across_inspect(far) for far in (("probe.Unseen", 5, 6), ("probe.UnseenClass", 7, 0)))
+
+
+def _one_proxy_across_inspect(far):
+    from rpyc.core import consts
+    from rpyc.core.netref import BaseNetref
+    from rpyc.core.protocol import Connection
+    from rpyc.core.service import VoidService
+
+    class Chan(object):
+        closed = False
+
+        def close(self):
+            pass
+
+        def send(self, data):
+            pass
     conn = Connection(VoidService(), Chan())
     conn._closed = True
-    far = ("probe.Unseen", 5, 6)
     nested = []
 
     def inspect(handler, *args):
